@@ -256,7 +256,7 @@ example : (finish none [.setStatus 201, .flush, .setStatus 202, .write [120] 1 f
 -- status ≤ 0 ignored, last positive wins, zero-length write commits, short + failing write counted
 example : (finish none [.setStatus 404, .setStatus 0, .setStatus (-5), .setStatus 503, .write [] 0 false,
       .setStatus 200, .write [1, 2, 3] 2 true, .flush]) =
-    ⟨200, 2, none, [.wh 503, .w [] 0 false, .w [1, 2, 3] 2 true, .fl]⟩ := by decide
+    ⟨200, 2, none, some none, [.wh 503, .w [] 0 false, .w [1, 2, 3] 2 true, .fl]⟩ := by decide
 
 example : specStatus [.setStatus 404, .setStatus 0, .setStatus 503, .write [] 0 false, .setStatus 200] = 503 := by
   decide
